@@ -344,7 +344,7 @@ def portfolios(draw, classes=None, min_assets=1, max_assets=5, max_nodes=3, with
     mk = draw(st.floats(0, 1)) < with_markets
     if mk:
         assets += markets(cx, draw=draw)
-    return {"grid": g, "prices": cx.prices, "assets": assets, "markets": mk}
+    return {"grid": g, "prices": cx.prices, "assets": assets, "markets": mk, "ints": draw(st.integers(0, 3)) == 0}
 
 
 # ====================================================================== wrappers and special variants
@@ -476,7 +476,7 @@ def portfolios_all(draw, classes=None, min_assets=1, max_assets=5, max_nodes=3, 
     if draw(st.integers(0, 3)) == 0:
         # any order of the assets (the market pairs are not always the last ones)
         assets = [assets[i] for i in draw(st.permutations(list(range(len(assets)))))]
-    return {"grid": g, "prices": cx.prices, "assets": assets, "markets": mk}
+    return {"grid": g, "prices": cx.prices, "assets": assets, "markets": mk, "ints": draw(st.integers(0, 3)) == 0}
 
 
 NODE_POOL = ["1", "11", "N1", "N11", "n", "nn", "0", "10", "a", "a1", "node 1", "1_internal_1"]
